@@ -2,12 +2,18 @@
    parameter of shape {2} at (1, 2): exp, log (non-polynomial, generated formulas) and multiply,
    with fan-out of the parameter.  The tape is written out with its stored values, every
    hypothesis of C01_backward_computes_derivative_real is established, the sweep is evaluated
-   (the real operations stay symbolic), and the gradient added is 2 p = (2, 4). *)
+   (the real operations stay symbolic), and the gradient added is 2 p = (2, 4).
+   A second tape (ry_...) runs the graph model's lazy forward over max_pool2d, the Divide / Pow
+   ...Scalar operators, the dense softmax cross entropy with x of batch 1 against a batch-2
+   target and the sparse one with x of batch 1 under two index lists; its values and tangents
+   are named constants (comparisons, pow, logsumexp stay symbolic), every hypothesis of
+   C01_backward_computes_derivative_real is established and the theorem is applied (ry_applied). *)
 From Coq Require Import List NArith ZArith Bool Arith Lia Reals Lra.
 From Coquelicot Require Import Coquelicot.
 From PV Require Import Graph.OpFamily Graph.Tape Graph.Lazy Graph.Backward Graph.TapeLemmas Graph.LazyProofs
   Graph.BackwardProofs Graph.ADProof Tensor.Kernels Tensor.Index Tensor.ProofsBilinear
-  Scalar.ScalarBase Gen.ScalarGen Tensor.AdjCore Tensor.GraphInst Tensor.GraphInstR Tensor.AdjDeriv Tensor.TapeDeriv.
+  Scalar.ScalarBase Gen.ScalarGen Scalar.Stable Tensor.AdjCore Tensor.GraphInst Tensor.AdjMax Tensor.AdjSoftmax Tensor.AdjSoftmaxB
+  Tensor.AdjScalarR Tensor.GraphInstR Tensor.AdjDeriv Tensor.TapeDeriv.
 Import ListNotations.
 Local Open Scope R_scope.
 
@@ -105,5 +111,213 @@ Lemma rx_guards :
   d_ok (describeR (RSparseSCE (mkT [3%nat] 2) (mkT [1%nat] 2) [2%nat; 0%nat] 0)) = true /\
   d_ok (describeR (RSparseSCE (mkT [3%nat] 2) (mkT [1%nat] 2) [1%nat] 0)) = true /\
   d_ok (describeR (RBin BDivide (mkT [3%nat] 2) (mkT [3%nat] 1))) = true /\
-  d_ok (describeR (RBin BPow (mkT [3%nat] 1) (mkT [3%nat] 4))) = true.
+  d_ok (describeR (RBin BPow (mkT [3%nat] 1) (mkT [3%nat] 4))) = true /\
+  d_ok (describeR (RMaxPool (mkT [3%nat; 3%nat] 2) (mkT [2%nat; 2%nat] 2) 2 2 1 1 2 2)) = true /\
+  d_ok (describeR (RDivScalarR (mkT [3%nat] 2) (mkT [] 1))) = true /\
+  d_ok (describeR (RDivScalarL (mkT [3%nat] 1) (mkT [] 2))) = true /\
+  d_ok (describeR (RPowScalarR (mkT [3%nat] 2) (mkT [] 2))) = true /\
+  d_ok (describeR (RPowScalarL (mkT [2%nat; 2%nat] 1) (mkT [] 1))) = true /\
+  d_ok (describeR (RSCEb (mkT [3%nat] 2) (mkT [3%nat] 1) (mkT [1%nat] 2) (mkT [1%nat] 2) 0)) = true /\
+  d_ok (describeR (RSCEb (mkT [3%nat] 1) (mkT [3%nat] 2) (mkT [1%nat] 1) (mkT [1%nat] 2) 0)) = true /\
+  d_ok (describeR (RSparseSCEb (mkT [3%nat] 1) (mkT [1%nat] 1) (mkT [1%nat] 2) [2%nat; 0%nat] 0)) = true.
 Proof. repeat split; vm_compute; reflexivity. Qed.
+
+(* ================================================================== a second tape: the operators added last *)
+Definition s22 : tshape := mkT [2; 2]%nat 1.   Definition s11 : tshape := mkT [1; 1]%nat 1.
+Definition s0 : tshape := mkT [] 1.            Definition s22b : tshape := mkT [2; 2]%nat 2.
+Definition s12 : tshape := mkT [1; 2]%nat 1.   Definition s12b : tshape := mkT [1; 2]%nat 2.
+Definition ry_env : @env (@OpFamily.vec R) :=
+  {| e_pval := fun p => match p with O => [1; 2; 4; 3] | _ => [2] end;
+     e_pgrad := fun p => match p with O => [10; 20; 30; 40] | _ => [7] end; e_pos := fun _ => 0%N |}.
+Definition ry_t : list R := [1 / 4; 3 / 4; 1 / 2; 1 / 2; 1; 0; 0; 1].
+Definition ry_cmds : list (@cmd rop tshape (@OpFamily.vec R)) :=
+  [ CNewGraph;
+    CAdd 0 (RCore (OParam 0 s22)) [];                                               (*  0: p   {2,2}        *)
+    CAdd 0 (RCore (OParam 1 s0)) [];                                                (*  1: c   {} scalar    *)
+    CAdd 0 (RMaxPool s22 s11 2 2 0 0 1 1) [(0, (0, 0))]%nat;                        (*  2: max_pool2d(p)    *)
+    CAdd 0 (RCore (OReshape s11 s0)) [(0, (2, 0))]%nat;                             (*  3: m as a scalar    *)
+    CAdd 0 (RDivScalarR s22 s0) [(0, (0, 0)); (0, (3, 0))]%nat;                     (*  4: p / m            *)
+    CAdd 0 (RDivScalarL s22 s0) [(0, (0, 0)); (0, (1, 0))]%nat;                     (*  5: c / p            *)
+    CAdd 0 (RPowScalarR s22 s0) [(0, (0, 0)); (0, (1, 0))]%nat;                     (*  6: p ^ c            *)
+    CAdd 0 (RPowScalarL s22 s0) [(0, (0, 0)); (0, (1, 0))]%nat;                     (*  7: c ^ p            *)
+    CAdd 0 (RCore (OAdd s22 s22)) [(0, (4, 0)); (0, (5, 0))]%nat;                   (*  8 *)
+    CAdd 0 (RCore (OAdd s22 s22)) [(0, (6, 0)); (0, (7, 0))]%nat;                   (*  9 *)
+    CAdd 0 (RCore (OAdd s22 s22)) [(0, (8, 0)); (0, (9, 0))]%nat;                   (* 10: x   {2,2}        *)
+    CAdd 0 (RCore (OInput s22b ry_t)) [];        (* 11: t   {2,2} x 2    *)
+    CAdd 0 (RSCEb s22 s22b s12 s12b 0) [(0, (10, 0)); (0, (11, 0))]%nat;            (* 12: sce(x, t) {1,2} x 2 *)
+    CAdd 0 (RSparseSCEb s22 s12 s12b [0; 1]%nat 0) [(0, (0, 0))]%nat;               (* 13: sce(p, ids)      *)
+    CAdd 0 (RCore (OAdd s12b s12b)) [(0, (12, 0)); (0, (13, 0))]%nat;               (* 14: y                *)
+    CForward 0 (14, 0)%nat ].
+(* the tape produced by the lazy forward of the graph model, real operations kept symbolic *)
+Definition ry_gen : list (@opinfo rop tshape (@OpFamily.vec R)) :=
+  Eval cbv -[exp ln Rpower Rplus Rmult Rminus Ropp Rinv Rdiv IZR Rgt_dec Req_EM_T scan first_eq Stable.lse_fold flt_lowest] in
+    match w_graphs (run_all real_family rVO {| w_graphs := []; w_env := ry_env |} ry_cmds) with
+    | g :: _ => g_ops g | [] => [] end.
+Definition ry_nodes : list (rop * list (nat * nat)) :=
+  [ (RCore (OParam 0 s22), []%nat);
+    (RCore (OParam 1 s0), []%nat);
+    (RMaxPool s22 s11 2 2 0 0 1 1, [(0, 0)]%nat);
+    (RCore (OReshape s11 s0), [(2, 0)]%nat);
+    (RDivScalarR s22 s0, [(0, 0); (3, 0)]%nat);
+    (RDivScalarL s22 s0, [(0, 0); (1, 0)]%nat);
+    (RPowScalarR s22 s0, [(0, 0); (1, 0)]%nat);
+    (RPowScalarL s22 s0, [(0, 0); (1, 0)]%nat);
+    (RCore (OAdd s22 s22), [(4, 0); (5, 0)]%nat);
+    (RCore (OAdd s22 s22), [(6, 0); (7, 0)]%nat);
+    (RCore (OAdd s22 s22), [(8, 0); (9, 0)]%nat);
+    (RCore (OInput s22b ry_t), []%nat);
+    (RSCEb s22 s22b s12 s12b 0, [(10, 0); (11, 0)]%nat);
+    (RSparseSCEb s22 s12 s12b [0; 1]%nat 0, [(0, 0)]%nat);
+    (RCore (OAdd s12b s12b), [(12, 0); (13, 0)]%nat) ].
+Definition ry_V : list (list (list R)) := Eval cbv -[exp ln Rpower Rplus Rmult Rminus Ropp Rinv Rdiv IZR Rgt_dec Req_EM_T scan first_eq Stable.lse_fold flt_lowest] in evalT describeR real_inner (e_pval ry_env) ry_nodes [].
+Definition ry_dp : nat -> @OpFamily.vec R := fun p => match p with O => [5; 7; -1; 2] | _ => [3] end.
+Definition ry_T : list (list (list R)) := Eval cbv -[exp ln Rpower Rplus Rmult Rminus Ropp Rinv Rdiv IZR Rgt_dec Req_EM_T scan first_eq Stable.lse_fold flt_lowest] in tanT describeR real_inner ry_dp (e_pval ry_env) ry_nodes [] [].
+Definition ry_v0 : list R := Eval cbv -[exp ln Rpower Rplus Rmult Rminus Ropp Rinv Rdiv IZR Rgt_dec Req_EM_T scan first_eq Stable.lse_fold flt_lowest] in nth 0 (nth 0 ry_V []) [].
+Definition ry_v1 : list R := Eval cbv -[exp ln Rpower Rplus Rmult Rminus Ropp Rinv Rdiv IZR Rgt_dec Req_EM_T scan first_eq Stable.lse_fold flt_lowest] in nth 0 (nth 1 ry_V []) [].
+Definition ry_v2 : list R := Eval cbv -[exp ln Rpower Rplus Rmult Rminus Ropp Rinv Rdiv IZR Rgt_dec Req_EM_T scan first_eq Stable.lse_fold flt_lowest] in nth 0 (nth 2 ry_V []) [].
+Definition ry_v3 : list R := Eval cbv -[exp ln Rpower Rplus Rmult Rminus Ropp Rinv Rdiv IZR Rgt_dec Req_EM_T scan first_eq Stable.lse_fold flt_lowest] in nth 0 (nth 3 ry_V []) [].
+Definition ry_v4 : list R := Eval cbv -[exp ln Rpower Rplus Rmult Rminus Ropp Rinv Rdiv IZR Rgt_dec Req_EM_T scan first_eq Stable.lse_fold flt_lowest] in nth 0 (nth 4 ry_V []) [].
+Definition ry_v5 : list R := Eval cbv -[exp ln Rpower Rplus Rmult Rminus Ropp Rinv Rdiv IZR Rgt_dec Req_EM_T scan first_eq Stable.lse_fold flt_lowest] in nth 0 (nth 5 ry_V []) [].
+Definition ry_v6 : list R := Eval cbv -[exp ln Rpower Rplus Rmult Rminus Ropp Rinv Rdiv IZR Rgt_dec Req_EM_T scan first_eq Stable.lse_fold flt_lowest] in nth 0 (nth 6 ry_V []) [].
+Definition ry_v7 : list R := Eval cbv -[exp ln Rpower Rplus Rmult Rminus Ropp Rinv Rdiv IZR Rgt_dec Req_EM_T scan first_eq Stable.lse_fold flt_lowest] in nth 0 (nth 7 ry_V []) [].
+Definition ry_v8 : list R := Eval cbv -[exp ln Rpower Rplus Rmult Rminus Ropp Rinv Rdiv IZR Rgt_dec Req_EM_T scan first_eq Stable.lse_fold flt_lowest] in nth 0 (nth 8 ry_V []) [].
+Definition ry_v9 : list R := Eval cbv -[exp ln Rpower Rplus Rmult Rminus Ropp Rinv Rdiv IZR Rgt_dec Req_EM_T scan first_eq Stable.lse_fold flt_lowest] in nth 0 (nth 9 ry_V []) [].
+Definition ry_v10 : list R := Eval cbv -[exp ln Rpower Rplus Rmult Rminus Ropp Rinv Rdiv IZR Rgt_dec Req_EM_T scan first_eq Stable.lse_fold flt_lowest] in nth 0 (nth 10 ry_V []) [].
+Definition ry_v11 : list R := Eval cbv -[exp ln Rpower Rplus Rmult Rminus Ropp Rinv Rdiv IZR Rgt_dec Req_EM_T scan first_eq Stable.lse_fold flt_lowest] in nth 0 (nth 11 ry_V []) [].
+Definition ry_v12 : list R := Eval cbv -[exp ln Rpower Rplus Rmult Rminus Ropp Rinv Rdiv IZR Rgt_dec Req_EM_T scan first_eq Stable.lse_fold flt_lowest] in nth 0 (nth 12 ry_V []) [].
+Definition ry_v13 : list R := Eval cbv -[exp ln Rpower Rplus Rmult Rminus Ropp Rinv Rdiv IZR Rgt_dec Req_EM_T scan first_eq Stable.lse_fold flt_lowest] in nth 0 (nth 13 ry_V []) [].
+Definition ry_v14 : list R := Eval cbv -[exp ln Rpower Rplus Rmult Rminus Ropp Rinv Rdiv IZR Rgt_dec Req_EM_T scan first_eq Stable.lse_fold flt_lowest] in nth 0 (nth 14 ry_V []) [].
+Definition ry_d0 : list R := Eval cbv -[exp ln Rpower Rplus Rmult Rminus Ropp Rinv Rdiv IZR Rgt_dec Req_EM_T scan first_eq Stable.lse_fold flt_lowest] in nth 0 (nth 0 ry_T []) [].
+Definition ry_d1 : list R := Eval cbv -[exp ln Rpower Rplus Rmult Rminus Ropp Rinv Rdiv IZR Rgt_dec Req_EM_T scan first_eq Stable.lse_fold flt_lowest] in nth 0 (nth 1 ry_T []) [].
+Definition ry_d2 : list R := Eval cbv -[exp ln Rpower Rplus Rmult Rminus Ropp Rinv Rdiv IZR Rgt_dec Req_EM_T scan first_eq Stable.lse_fold flt_lowest] in nth 0 (nth 2 ry_T []) [].
+Definition ry_d3 : list R := Eval cbv -[exp ln Rpower Rplus Rmult Rminus Ropp Rinv Rdiv IZR Rgt_dec Req_EM_T scan first_eq Stable.lse_fold flt_lowest] in nth 0 (nth 3 ry_T []) [].
+Definition ry_d4 : list R := Eval cbv -[exp ln Rpower Rplus Rmult Rminus Ropp Rinv Rdiv IZR Rgt_dec Req_EM_T scan first_eq Stable.lse_fold flt_lowest] in nth 0 (nth 4 ry_T []) [].
+Definition ry_d5 : list R := Eval cbv -[exp ln Rpower Rplus Rmult Rminus Ropp Rinv Rdiv IZR Rgt_dec Req_EM_T scan first_eq Stable.lse_fold flt_lowest] in nth 0 (nth 5 ry_T []) [].
+Definition ry_d6 : list R := Eval cbv -[exp ln Rpower Rplus Rmult Rminus Ropp Rinv Rdiv IZR Rgt_dec Req_EM_T scan first_eq Stable.lse_fold flt_lowest] in nth 0 (nth 6 ry_T []) [].
+Definition ry_d7 : list R := Eval cbv -[exp ln Rpower Rplus Rmult Rminus Ropp Rinv Rdiv IZR Rgt_dec Req_EM_T scan first_eq Stable.lse_fold flt_lowest] in nth 0 (nth 7 ry_T []) [].
+Definition ry_d8 : list R := Eval cbv -[exp ln Rpower Rplus Rmult Rminus Ropp Rinv Rdiv IZR Rgt_dec Req_EM_T scan first_eq Stable.lse_fold flt_lowest] in nth 0 (nth 8 ry_T []) [].
+Definition ry_d9 : list R := Eval cbv -[exp ln Rpower Rplus Rmult Rminus Ropp Rinv Rdiv IZR Rgt_dec Req_EM_T scan first_eq Stable.lse_fold flt_lowest] in nth 0 (nth 9 ry_T []) [].
+Definition ry_d10 : list R := Eval cbv -[exp ln Rpower Rplus Rmult Rminus Ropp Rinv Rdiv IZR Rgt_dec Req_EM_T scan first_eq Stable.lse_fold flt_lowest] in nth 0 (nth 10 ry_T []) [].
+Definition ry_d11 : list R := Eval cbv -[exp ln Rpower Rplus Rmult Rminus Ropp Rinv Rdiv IZR Rgt_dec Req_EM_T scan first_eq Stable.lse_fold flt_lowest] in nth 0 (nth 11 ry_T []) [].
+Definition ry_d12 : list R := Eval cbv -[exp ln Rpower Rplus Rmult Rminus Ropp Rinv Rdiv IZR Rgt_dec Req_EM_T scan first_eq Stable.lse_fold flt_lowest] in nth 0 (nth 12 ry_T []) [].
+Definition ry_d13 : list R := Eval cbv -[exp ln Rpower Rplus Rmult Rminus Ropp Rinv Rdiv IZR Rgt_dec Req_EM_T scan first_eq Stable.lse_fold flt_lowest] in nth 0 (nth 13 ry_T []) [].
+Definition ry_d14 : list R := Eval cbv -[exp ln Rpower Rplus Rmult Rminus Ropp Rinv Rdiv IZR Rgt_dec Req_EM_T scan first_eq Stable.lse_fold flt_lowest] in nth 0 (nth 14 ry_T []) [].
+Definition yslot (sh : tshape) (v : option (list R)) : @slot tshape (@OpFamily.vec R) :=
+  {| s_shape := sh; s_dev := 0%nat; s_val := v; s_grad := None |}.
+Definition ry_ops0 : list (@opinfo rop tshape (@OpFamily.vec R)) :=
+  [ {| o_op := RCore (OParam 0 s22); o_args := []%nat; o_rets := [yslot s22 None] |};
+    {| o_op := RCore (OParam 1 s0); o_args := []%nat; o_rets := [yslot s0 None] |};
+    {| o_op := RMaxPool s22 s11 2 2 0 0 1 1; o_args := [(0, 0)]%nat; o_rets := [yslot s11 (Some ry_v2)] |};
+    {| o_op := RCore (OReshape s11 s0); o_args := [(2, 0)]%nat; o_rets := [yslot s0 (Some ry_v3)] |};
+    {| o_op := RDivScalarR s22 s0; o_args := [(0, 0); (3, 0)]%nat; o_rets := [yslot s22 (Some ry_v4)] |};
+    {| o_op := RDivScalarL s22 s0; o_args := [(0, 0); (1, 0)]%nat; o_rets := [yslot s22 (Some ry_v5)] |};
+    {| o_op := RPowScalarR s22 s0; o_args := [(0, 0); (1, 0)]%nat; o_rets := [yslot s22 (Some ry_v6)] |};
+    {| o_op := RPowScalarL s22 s0; o_args := [(0, 0); (1, 0)]%nat; o_rets := [yslot s22 (Some ry_v7)] |};
+    {| o_op := RCore (OAdd s22 s22); o_args := [(4, 0); (5, 0)]%nat; o_rets := [yslot s22 (Some ry_v8)] |};
+    {| o_op := RCore (OAdd s22 s22); o_args := [(6, 0); (7, 0)]%nat; o_rets := [yslot s22 (Some ry_v9)] |};
+    {| o_op := RCore (OAdd s22 s22); o_args := [(8, 0); (9, 0)]%nat; o_rets := [yslot s22 (Some ry_v10)] |};
+    {| o_op := RCore (OInput s22b ry_t); o_args := []%nat; o_rets := [yslot s22b (Some ry_v11)] |};
+    {| o_op := RSCEb s22 s22b s12 s12b 0; o_args := [(10, 0); (11, 0)]%nat; o_rets := [yslot s12b (Some ry_v12)] |};
+    {| o_op := RSparseSCEb s22 s12 s12b [0; 1]%nat 0; o_args := [(0, 0)]%nat; o_rets := [yslot s12b (Some ry_v13)] |};
+    {| o_op := RCore (OAdd s12b s12b); o_args := [(12, 0); (13, 0)]%nat; o_rets := [yslot s12b (Some ry_v14)] |} ].
+Lemma ry_gen_eq : ry_gen = ry_ops0.
+Proof. reflexivity. Qed.
+Definition ry_Tl : list (list (list R)) := [[ry_d0]; [ry_d1]; [ry_d2]; [ry_d3]; [ry_d4]; [ry_d5]; [ry_d6]; [ry_d7]; [ry_d8]; [ry_d9]; [ry_d10]; [ry_d11]; [ry_d12]; [ry_d13]; [ry_d14]].
+Lemma ry_T_eq : real_tangents ry_ops0 ry_env ry_dp = ry_Tl.
+Proof. reflexivity. Qed.
+Definition ry_tan : nat * nat -> @OpFamily.vec R := val_at ry_Tl.
+Definition ry_seeded := upd_ops ry_ops0 (14, 0)%nat (fun s => set_grad s (Some (vones rVO (s_shape s)))).
+
+Lemma ry_wf : wf_ops ry_ops0.
+Proof.
+  intros k oi H. nth_casesR k H ltac:(cbn; repeat constructor; cbn; try lia; eexists; (split; [reflexivity|cbn; lia])).
+Qed.
+Lemma ry_shape_ok : shape_ok real_family ry_ops0.
+Proof.
+  intros k oi H Hi.
+  nth_casesR k H ltac:(try discriminate Hi;
+    (eexists; split; [repeat (constructor; [eexists; split; reflexivity|]); constructor|vm_compute; reflexivity])).
+Qed.
+Lemma ry_consistent : consistent real_family real_jvp ry_tan ry_dp ry_ops0 ry_env.
+Proof.
+  intros k oi H.
+  nth_casesR k H ltac:(cbn [o_op real_family desc_family f_inner o_rets]; try (split; reflexivity);
+    (intros ys Hys; cbn [all_vals yslot s_val] in Hys; injection Hys as <-;
+     eexists 0%N, _; split; [repeat (constructor; [reflexivity|]); constructor|split; reflexivity])).
+Qed.
+Lemma ry_rsized : rsized real_family tsize ry_tan ry_ops0 ry_env.
+Proof.
+  intros [k v] s H. unfold get_slot_ops in H. cbn [fst snd] in H.
+  do 15 (destruct k as [|k];
+        [destruct v as [|v]; [cbn in H; injection H as <-; split; [reflexivity|intros x [= <-]; reflexivity]|cbn in H; destruct v; discriminate H]|]).
+  cbn in H. destruct k; discriminate H.
+Qed.
+Lemma ry_gclean : gclean ry_ops0.
+Proof.
+  intros [k v] s H. unfold get_slot_ops in H. cbn [fst snd] in H.
+  do 15 (destruct k as [|k];
+        [destruct v as [|v]; [cbn in H; injection H as <-; reflexivity|cbn in H; destruct v; discriminate H]|]).
+  cbn in H. destruct k; discriminate H.
+Qed.
+Lemma ry_psz : psz real_family tsize ry_ops0 ry_env.
+Proof.
+  intros k oi p s H Hi Hs. nth_casesR k H ltac:(try discriminate Hi; cbn in Hi; injection Hi as <-; cbn in Hs; injection Hs as <-; reflexivity).
+Qed.
+Lemma ry_cover k oi p : nth_error ry_ops0 k = Some oi -> f_inner real_family (o_op oi) = Some p -> In p [0%nat; 1%nat].
+Proof. intros H Hi. nth_casesR k H ltac:(try discriminate Hi; cbn in Hi; injection Hi as <-; cbn; tauto). Qed.
+Lemma ry_nodup : NoDup [0%nat; 1%nat].
+Proof. repeat constructor; cbn; intuition discriminate. Qed.
+Lemma ry_lengths p : length (e_pval ry_env p) = length (ry_dp p).
+Proof. destruct p as [|p]; reflexivity. Qed.
+
+Definition ry_result := Eval cbv -[exp ln Rpower Rplus Rmult Rminus Ropp Rinv Rdiv IZR Rgt_dec Req_EM_T scan first_eq Stable.lse_fold flt_lowest] in
+  sweep real_family rVO 14 ry_seeded ry_env [].
+Lemma ry_run : exists ops' e' bl',
+  sweep real_family rVO 14 ry_seeded ry_env [] = Some (ops', e', bl') /\ bl' = [14; 13; 12; 11; 10; 9; 8; 7; 6; 5; 4; 3; 2; 1; 0]%nat.
+Proof.
+  destruct ry_result as [[[ops' e'] bl']|] eqn:E; [|discriminate E].
+  exists ops', e', bl'. split; [exact E|]. unfold ry_result in E. injection E as <- <- <-. reflexivity.
+Qed.
+Lemma ry_max : scan rgt flt_lowest [1; 2; 4; 3] = 4.
+Proof.
+  apply (scan_unique rgt flt_lowest rgt_asym rgt_irrefl); [cbn; tauto|].
+  intros v [<-|[<-|[<-|[<-|[]]]]]; (left; reflexivity) || (right; apply rgt_true; lra).
+Qed.
+Lemma ry_smooth : real_smooth ry_ops0 ry_env.
+Proof.
+  unfold real_smooth.
+  cbv -[exp ln Rpower Rplus Rmult Rminus Ropp Rinv Rdiv IZR Rgt_dec Req_EM_T scan first_eq Stable.lse_fold flt_lowest real_dom].
+  change (fun a b : R => if Rgt_dec a b then true else false) with rgt. rewrite !ry_max.
+  repeat match goal with |- _ /\ _ => split end; try exact I; try discriminate; intros _; (split; [reflexivity|]);
+    cbn [real_dom]; try exact I.
+  - (* max_pool2d: the window {1, 2, 4, 3} attains its maximum once, at index 2 *)
+    intros e He. vm_compute in He. destruct He as [<-|[]]. right. exists 2%nat. split; [cbn; tauto|].
+    intros s' [<-|[<-|[<-|[<-|[]]]]] Hne; try congruence; cbn [nth]; apply rgt_true; lra.
+  - intros e He. vm_compute in He. destruct He as [<-|[<-|[<-|[<-|[]]]]]; cbn [nth fst snd]; lra.
+  - intros e He. vm_compute in He. destruct He as [<-|[<-|[<-|[<-|[]]]]]; cbn [nth fst snd]; lra.
+  - intros e He. vm_compute in He. destruct He as [<-|[<-|[<-|[<-|[]]]]]; cbn [nth fst snd]; lra.
+  - intros e He. vm_compute in He. destruct He as [<-|[<-|[<-|[<-|[]]]]]; cbn [nth fst snd]; lra.
+  - (* the target sums to 1 along axis 0 in each of the four batched slices *)
+    intros e He. vm_compute in He.
+    destruct He as [<-|[<-|[<-|[<-|[]]]]]; cbn -[Rplus Rdiv IZR]; lra.
+Qed.
+
+(* the same facts for the tangents as the theorems name them *)
+Lemma ry_consistent' : consistent real_family real_jvp (val_at (real_tangents ry_ops0 ry_env ry_dp)) ry_dp ry_ops0 ry_env.
+Proof. rewrite ry_T_eq. exact ry_consistent. Qed.
+Lemma ry_rsized' : rsized real_family tsize (val_at (real_tangents ry_ops0 ry_env ry_dp)) ry_ops0 ry_env.
+Proof. rewrite ry_T_eq. exact ry_rsized. Qed.
+
+(* C01_backward_computes_derivative_real applies to this tape: backward() from node 14 runs, and the
+   gradient potential of the two parameters grows by the sum of the derivatives of y's 4 elements *)
+Lemma ry_applied : exists ops' e' bl',
+  sweep real_family rVO 14 ry_seeded ry_env [] = Some (ops', e', bl') /\
+  ppot 0 Rplus Rmult ry_dp [0%nat; 1%nat] e' =
+    ppot 0 Rplus Rmult ry_dp [0%nat; 1%nat] ry_env +
+    fold_right Rplus 0 (map (fun i => Derive (fun t => nth i (val_at (real_eval ry_ops0 ry_env ry_dp t) (14, 0)%nat) 0) 0) (seq 0 4)).
+Proof.
+  destruct ry_run as (ops' & e' & bl' & Hsw & _). exists ops', e', bl'. split; [exact Hsw|].
+  exact (proj1 (C01_backward_computes_derivative_real ry_dp ry_ops0 ry_env [0%nat; 1%nat] ry_lengths ry_smooth ry_wf ry_shape_ok
+                  ry_consistent' ry_rsized' ry_nodup ry_cover (14, 0)%nat (yslot s12b (Some ry_v14)) [] ops' e' bl'
+                  ry_gclean ry_psz eq_refl Hsw)).
+Qed.
